@@ -1046,12 +1046,9 @@ namespace riddle
             }
             if (match(LPAREN_ID))
             {
-                tk = next();
                 id_token fn = is.back();
                 is.pop_back();
                 std::vector<const expression *> xprs;
-                if (!match(LPAREN_ID))
-                    error("expected '('..");
 
                 if (!match(RPAREN_ID))
                 {
